@@ -222,6 +222,51 @@ def check_program(p, layout, stages=("unoptimized", "simplified-logical", "fused
     return None
 
 
+def _extra_queries():
+    """Schema-sensitive shapes outside the generic program space: (name, builder(dx, pdf) -> collection)."""
+    import dask_expr as dx
+
+    n = 12
+    named = pd.DataFrame({"k": np.arange(n, dtype="int64") % 4, "v": np.arange(n, dtype="float64")},
+                         index=pd.Index(["r%02d" % i for i in range(n)], name="key"))
+    plain = pd.DataFrame({"x": np.arange(n, dtype="int64"), "y": np.arange(n, dtype="float64")})
+
+    def keep_name(s):
+        return s * 2.0  # keeps the input's name 'x'; meta says 'dx': enforcement has to rename
+
+    qs = []
+    for method in ("disk", "tasks", None):
+        for ii in (True, False):
+            kw = {"shuffle_method": method} if method else {}
+            qs.append((f"shuffle_ii{int(ii)}_{method}", lambda dx_, m=method, ii=ii, kw=kw: dx_.from_pandas(named, npartitions=3).shuffle("k", ignore_index=ii, **kw)))
+            qs.append((f"shuffle_ii{int(ii)}_{method}_reset", lambda dx_, m=method, ii=ii, kw=kw: dx_.from_pandas(named, npartitions=3).shuffle("k", ignore_index=ii, **kw).reset_index()))
+    for td in (True, False):
+        for em in (True, False):
+            qs.append((f"map_overlap_td{int(td)}_em{int(em)}", lambda dx_, td=td, em=em: dx_.from_pandas(plain, npartitions=3).x.map_overlap(
+                keep_name, 1, 0, meta=("dx", "f8"), transform_divisions=td, enforce_metadata=em)))
+            qs.append((f"map_partitions_em{int(em)}_{int(td)}", lambda dx_, td=td, em=em: dx_.from_pandas(plain, npartitions=3).x.map_partitions(
+                keep_name, meta=("dx", "f8"), enforce_metadata=em, transform_divisions=td)))
+    qs.append(("set_index_drop_false_head", lambda dx_: dx_.from_pandas(plain, npartitions=3).set_index("x", drop=False).head(3, compute=False)))
+    return qs
+
+
+def check_extra(name):
+    import dask_expr as dx
+
+    q = dict(_extra_queries())[name](dx)
+    enforced = "_em0" not in name  # without enforcement the user takes responsibility for the declared schema
+    decl = schema_of(q._meta)
+    for st, e in plans.stage_exprs(q.expr, stages=["simplified-logical", "fused"]):
+        if schema_of(e._meta) != decl:
+            return f"{name}: declared {decl}, after '{st}' {schema_of(e._meta)}"
+        g, keys, parts = plans.execute(e)
+        for i, part in enumerate(parts):
+            act = schema_of(part)
+            if enforced and not compatible(decl, act, len(part) == 0):
+                return f"{name}, stage {st}, partition {i}: declared {decl} computed {act}"
+    return None
+
+
 def _cases(ctx):
     progs = programs.valid_programs(2, "any")
     must = [p for p in progs if p.name in (
@@ -237,6 +282,15 @@ def families(ctx):
 
 def support(ctx, broken):
     sup = Support()
+    for name, _ in _extra_queries():
+        try:
+            msg = check_extra(name)
+        except Exception as ex:  # noqa: BLE001
+            msg = f"{name}: raised {type(ex).__name__}: {str(ex)[:160]}"
+        sup.executed += 1
+        sup.count("extra")
+        if msg:
+            sup.failures.append(Failure(sig={"kind": "schema-extra", "query": name}, case={"extra": name}, detail=msg))
     layouts = [0, 1] if ctx.quick else [0, 1, 2, 3, 4]
     for p in _cases(ctx):
         for layout in layouts:
@@ -257,6 +311,9 @@ def support(ctx, broken):
 
 
 def replay(case):
+    if "extra" in case:
+        msg = check_extra(case["extra"])
+        return Failure(sig={}, case=case, detail=msg) if msg else None
     progs = {p.name: p for p in programs.valid_programs(2, "any")}
     msg = check_program(progs[case["program"]], case["layout"])
     return Failure(sig={}, case=case, detail=msg) if msg else None
